@@ -364,7 +364,7 @@ def run(ck):
                  "harness/cmd/c12 + checks/c12.py comparison and oracle", "caco3/verif_names.go shim",
                  "modelled not verified: path.Match/filepath.Glob (fragment literals * ?), filepath.WalkDir, "
                  "filepath.Rel under srcDir, the OS file system"],
-        rule="exhaustive: path.Clean on every string over {a,b,.,/} up to length 6 (8 thorough); path.Join on all "
+        rule="exhaustive: path.Clean on every string over {a,b,.,/} up to length 7 (9 thorough); path.Join on all "
              "pairs/triples of short strings; makeRelPath/makePath on every name of <=4 segments from "
              "{a,.,..,''} x 7 package paths; env.src/out; path.Match on patterns over {a,*,?,/}; rule "
              "constructors with hostile strings; seeded random longer names; file sets on random consistent "
